@@ -153,6 +153,8 @@ fn main() {
 	}
 	let pid = std::process::id();
 	emit(&json!({"src": "hook", "ev": "HookRun", "phase": "start", "hook": name, "pid": pid}));
+	// what a hook finds the moment the daemon has started it
+	let files_first: Vec<Value> = stats.iter().map(|p| stat_once(p)).collect();
 	let mut stdin_data = Value::Null;
 	if want_stdin {
 		let mut s = Vec::new();
@@ -178,7 +180,7 @@ fn main() {
 	let code = next_exit(&name, &exit_seq);
 	emit(&json!({
 		"src": "hook", "ev": "HookRun", "phase": "end", "hook": name, "pid": pid,
-		"kv": kv, "env": env, "stdin": stdin_data, "files": files, "exit": code,
+		"kv": kv, "env": env, "stdin": stdin_data, "files": files, "files_first": files_first, "exit": code,
 		"argv": argv[1..].to_vec(),
 	}));
 	if signal_self {
